@@ -809,6 +809,8 @@ Qed.
      c.__signature__             Signature(required parameters, optional parameters = None[, **kwargs])
      c.__dict__                  "_additional_properties" when the class body set it, and whatever else [extra c]
                                  lists (never the two spellings of that key)
+     c._fields                   the names of the class's own Field / Constant objects
+     getattr(c, n)               for an own member n: the object "member:c.n" 
    TypedPyDefaults is the object "TypedPyDefaults" with the settings of [guards]. *)
 Definition n_TypedPyDefaults : pystr := s2p "TypedPyDefaults".
 Definition n_addl : pystr := s2p "_additional_properties".
@@ -822,12 +824,23 @@ Definition class_dict (k : klass) (extra : list (pystr * pyval)) : list (pystr *
 Definition extra_ok (extra : list (pystr * pyval)) : bool :=
   negb (alist_has extra n_addl) && negb (alist_has extra n_addl_old).
 
+(* the Field / Constant object that class c itself defines under the name n *)
+Definition member_obj (c n : pystr) : pystr := s2p "member:" ++ c ++ s2p "." ++ n.
+
+(* the names the heap uses for what is not an attribute ("isinstance:C", "m()") are never member names *)
+Definition pseudo_attr (a : pystr) : bool := existsb (fun c => N.eqb c 58 || N.eqb c 40) a.
+
+Definition special_class_attrs : list pystr :=
+  [isinstance_attr (s2p "StructMeta"); n_mro; s2p "mro()"; s2p "__signature__"; s2p "__dict__"; s2p "_fields"].
+
 Definition class_attr (k : klass) (extra : list (pystr * pyval)) (a : pystr) : option pyval :=
   if pystr_eqb a (isinstance_attr (s2p "StructMeta")) then Some (PBool (k_is_struct k))
   else if pystr_eqb a n_mro then Some (PTuple (v_refs (k_mro k)))
   else if pystr_eqb a (s2p "mro()") then Some (PList (v_refs (k_mro k)))
   else if pystr_eqb a (s2p "__signature__") then Some (v_sig (k_sig_req k) (k_sig_opt k) (k_sig_kwargs k))
   else if pystr_eqb a (s2p "__dict__") then Some (PDict (skeys (class_dict k extra)))
+  else if pystr_eqb a (s2p "_fields") then Some (v_names (map fst (k_own k)))
+  else if negb (pseudo_attr a) && alist_has (k_own k) a then Some (ref (member_obj (k_name k) a))
   else None.
 
 Definition defaults_attr (gd : guards) (a : pystr) : option pyval :=
@@ -2013,3 +2026,83 @@ Section ApplyDefault.
     - unfold v_names. rewrite deref_list. cbn [dv_iter bind]. fold (v_strs (map fst pre)). rewrite Hloop. reflexivity.
   Qed.
 End ApplyDefault.
+
+(* The class body first builds every Field object ([field_init], the Field constructors run while the body is
+   executed), then StructMeta.__new__ applies the `= value` defaults.  When the constructors all succeed, the
+   model's [build_members] is exactly that second phase. *)
+Section TwoPhases.
+  Variable re_match : N -> pystr -> bool.
+  Variable e : env.
+
+  Definition init_member (nm : pystr * mstmt) : res (pystr * member) :=
+    match snd nm with
+    | SDecl f imm kwd _ => fo <- field_init re_match e f imm kwd ;; Ok (fst nm, MField fo)
+    | SConst v => Ok (fst nm, MConst v)
+    | SObj m => Ok (fst nm, m)
+    end.
+
+  Definition eq_defs (l : list (pystr * mstmt)) : list (pystr * defval) :=
+    flat_map (fun nm => match snd nm with SDecl _ _ _ (Some d) => [(fst nm, d)] | _ => [] end) l.
+
+  Lemma eq_defs_notin l n : ~ In n (map fst l) -> alist_get (eq_defs l) n = None.
+  Proof.
+    induction l as [|[k ms] t IH]; intro H; [reflexivity|]. cbn [map fst In] in H.
+    cbn [eq_defs flat_map fst snd]. fold (eq_defs t).
+    assert (Hk : pystr_eqb k n = false) by (apply pystr_eqb_neq; intro; subst; apply H; left; reflexivity).
+    destruct ms as [f imm kwd [d|]|v|m]; cbn [app alist_get]; rewrite ?Hk; apply IH; intro; apply H; right; assumption.
+  Qed.
+
+  Lemma mapM_apply_ext D1 D2 (pre : members) :
+    (forall n, In n (map fst pre) -> alist_get D1 n = alist_get D2 n) ->
+    mapM (apply_member re_match e D1) pre = mapM (apply_member re_match e D2) pre.
+  Proof.
+    induction pre as [|[n m] t IH]; intro H; [reflexivity|]. cbn [mapM]. unfold apply_member at 1 3. cbn [fst snd].
+    rewrite (H n (or_introl eq_refl)). rewrite IH by (intros k Hk; apply H; right; exact Hk). reflexivity.
+  Qed.
+
+  Lemma mapM_names {A B} (f : pystr * A -> res (pystr * B)) l r :
+    (forall x y, f x = Ok y -> fst y = fst x) -> mapM f l = Ok r -> map fst r = map fst l.
+  Proof.
+    intro Hf. revert r. induction l as [|x t IH]; intros r H; cbn [mapM] in H; [inversion H; reflexivity|].
+    destruct (f x) as [y|] eqn:Ey; cbn [bind] in H; [|discriminate].
+    destruct (mapM f t) as [ys|] eqn:Et; cbn [bind] in H; [|discriminate]. inversion H; subst.
+    cbn [map]. rewrite (Hf _ _ Ey), (IH _ eq_refl). reflexivity.
+  Qed.
+
+  Lemma init_member_name x y : init_member x = Ok y -> fst y = fst x.
+  Proof.
+    destruct x as [n ms]. unfold init_member. cbn [fst snd]. destruct ms as [f imm kwd eqd|v|m].
+    - destruct (field_init re_match e f imm kwd); cbn [bind]; [|discriminate]. intro H; inversion H; reflexivity.
+    - intro H; inversion H; reflexivity.
+    - intro H; inversion H; reflexivity.
+  Qed.
+
+  Lemma build_members_two_phases l : forall pre,
+    NoDup (map fst l) -> mapM init_member l = Ok pre ->
+    build_members re_match e l = mapM (apply_member re_match e (eq_defs l)) pre.
+  Proof.
+    induction l as [|[n ms] t IH]; intros pre Hnd Hinit.
+    - cbn [mapM] in Hinit. inversion Hinit. reflexivity.
+    - cbn [map fst] in Hnd. inversion Hnd as [|? ? Hn Hd]; subst.
+      cbn [mapM] in Hinit. destruct (init_member (n, ms)) as [[n' m0]|] eqn:E0; cbn [bind] in Hinit; [|discriminate].
+      destruct (mapM init_member t) as [pt|] eqn:Et; cbn [bind] in Hinit; [|discriminate]. inversion Hinit; subst pre. clear Hinit.
+      pose proof (init_member_name _ _ E0) as En. cbn [fst] in En. subst n'.
+      assert (Hpt : map fst pt = map fst t) by (apply (mapM_names init_member t pt init_member_name Et)).
+      assert (Hrest : mapM (apply_member re_match e (eq_defs ((n, ms) :: t))) pt = build_members re_match e t).
+      { rewrite (IH pt Hd eq_refl). apply mapM_apply_ext. intros k Hk. rewrite Hpt in Hk.
+        cbn [eq_defs flat_map fst snd]. fold (eq_defs t).
+        assert (Hkn : pystr_eqb n k = false) by (apply pystr_eqb_neq; intro; subst; contradiction).
+        destruct ms as [f imm kwd [d|]|v|m]; cbn [app alist_get]; rewrite ?Hkn; reflexivity. }
+      cbn [build_members mapM]. rewrite Hrest. unfold apply_member at 1. cbn [fst snd].
+      unfold init_member in E0. cbn [fst snd] in E0. unfold build_member.
+      assert (Hget : alist_get (eq_defs ((n, ms) :: t)) n = match ms with SDecl _ _ _ eqd => eqd | _ => None end).
+      { cbn [eq_defs flat_map fst snd]. fold (eq_defs t).
+        destruct ms as [f imm kwd [d|]|v|m]; cbn [app alist_get]; rewrite ?pystr_eqb_refl; try reflexivity; apply eq_defs_notin; exact Hn. }
+      destruct ms as [f imm kwd eqd|v|m].
+      + destruct (field_init re_match e f imm kwd) as [fo|x]; cbn [bind] in E0; [|discriminate]. inversion E0; subst m0.
+        cbn [bind]. rewrite Hget. destruct (apply_eq_default re_match e fo eqd); reflexivity.
+      + inversion E0; subst m0. cbn [bind]. reflexivity.
+      + inversion E0; subst m0. cbn [bind]. destruct m as [fo|v]; cbn [bind]; [|reflexivity].
+        rewrite Hget. cbn [apply_eq_default bind]. reflexivity.
+  Qed.
+End TwoPhases.
